@@ -373,7 +373,7 @@ class TaggedSeries(object):
 
     https://github.com/RichiH/OpenMetrics
     """
-    (metric, rawtags) = path[0:-1].split('{', 2)
+    (metric, rawtags) = path[0:-1].split('{', 1)
     if not metric:
       raise Exception('Cannot parse path %s, no metric found' % path)
 
